@@ -110,6 +110,8 @@ def run(index, tier="quick", seed=0) -> Result:
     _sign_convention(res, index)
     from ..parallel import report as _copy1
     _copy1(res, index, lambda f: (f['cls'] == 'Polyhedron' and f['top'] in ('_compute_inertia_tensor', 'centroid', 'volume', 'get_face_area', 'inertia_tensor', '_find_equations')) or 'polytri' in f['module'])
+    from ..refpoint import check_reference_point
+    check_reference_point(res, index, 'Polyhedron')
     return res
 
 
